@@ -82,6 +82,9 @@ def write(w: PbnWriter, spec: dict):
         taken = None
     else:
         contract = adapt.mk_contract(con[0], con[1], spec['vul'], spec['declarer'])
+        if spec.get('flags') == 'xx-only' and con[1] == 2:
+            # a redoubled contract may also be given with only the redouble flag set (str(contract) spells it XX as well)
+            contract = Contract(final_bid=adapt.call_obj(con[0]), x=False, xx=True, vul=adapt.VUL[spec['vul']], declarer=adapt.PL[spec['declarer']])
         taken = spec['result']
     wn, nn, en, sn = spec['names']
     w.write_board_result(event=spec['event'], site=spec['site'], date=datetime.date(*spec['date']), board_num=spec['num'],
@@ -184,6 +187,8 @@ def cases(tier: str, seed: int):
     for bid in RA.BIDS:
         for dbl in (0, 1, 2):
             out.append(([var(contract=[bid, dbl], declarer=SEATS[(RA.BIDS.index(bid) + dbl) % 4], result=(RA.BIDS.index(bid) * 3 + dbl) % 14)], False, 'contract'))
+    for bid in RA.BIDS[::3]:
+        out.append(([var(contract=[bid, 2], flags='xx-only', declarer=SEATS[RA.BIDS.index(bid) % 4], result=RA.BIDS.index(bid) % 14)], False, 'contract-xx-flag-only'))
     for d, r in itertools.product(SEATS, range(14)):
         out.append(([var(declarer=d, result=r)], False, 'declarer-result'))
     for po in ('passout', 'passout-pass'):
